@@ -4,8 +4,8 @@
 #define vBitfield 	V0
 #define vMask 		V1
 
-// func insertPosNode16(keys *[16]byte, childrenLen uint8, b byte)
-TEXT ·insertPosNode16(SB),$0-24
+// func insertPosNode16Lanes(keys *[16]byte, childrenLen uint8, b byte) int
+TEXT ·insertPosNode16Lanes(SB),$0-24
 	MOVD 	keys+0(FP), rKeys
 	MOVB 	b+9(FP), rB
 
@@ -33,8 +33,8 @@ found:
 	RET	
 	
 
-// func searchNode16(keys *[16]byte, childrenLen uint8, b byte) int
-TEXT ·searchNode16(SB),$0-24	
+// func searchNode16Lanes(keys *[16]byte, childrenLen uint8, b byte) int
+TEXT ·searchNode16Lanes(SB),$0-24	
 	MOVD 	keys+0(FP), rKeys
 	MOVB 	b+9(FP), rB
 
